@@ -162,6 +162,17 @@ class StrAbs:
                 if isinstance(st.target, ast.Name) and isinstance(st.value, ast.List) and not st.value.elts:
                     env[st.target.id] = ListLang(None)  # type: ignore[assignment]
                 continue
+            if isinstance(st, ast.AugAssign) and isinstance(st.target, ast.Name):
+                nm = st.target.id
+                try:
+                    if not isinstance(st.op, ast.Add) or nm not in env:
+                        raise NotString()
+                    both = ast.copy_location(ast.BinOp(left=ast.Name(id=nm, ctx=ast.Load()), op=ast.Add(), right=st.value), st)
+                    ast.fix_missing_locations(both)
+                    env[nm] = self.expr(fi, both, env, at)
+                except NotString:
+                    env.pop(nm, None)
+                continue
             if isinstance(st, ast.For):
                 self._for(fi, st, env, at)
                 continue
@@ -190,6 +201,18 @@ class StrAbs:
                     env[st.targets[0].id] = self.expr(fi, st.value, env, at)
                 except NotString:
                     env.pop(st.targets[0].id, None)
+                continue
+            if isinstance(st, ast.AugAssign) and isinstance(st.target, ast.Name):
+                # `text += piece` concatenates; any other augmented assignment rebinds a non-string (quantity *= factor)
+                nm = st.target.id
+                try:
+                    if not isinstance(st.op, ast.Add) or nm not in env:
+                        raise NotString()
+                    both = ast.copy_location(ast.BinOp(left=ast.Name(id=nm, ctx=ast.Load()), op=ast.Add(), right=st.value), st)
+                    ast.fix_missing_locations(both)
+                    env[nm] = self.expr(fi, both, env, at)
+                except NotString:
+                    env.pop(nm, None)
                 continue
             if isinstance(st, ast.For):
                 self._for(fi, st, env, at)
